@@ -170,11 +170,53 @@ void mmio_write(Rig& r, Rng& g, u16 off, u16 v, bool dsp_path) {
         r.t.MMIOWrite((u16)(off + 0x800 * g.below(4)), v);
 }
 
-const char* kKinds[] = {"prog", "mmio", "dma", "host"};
+const char* kKinds[] = {"prog", "mmio", "dma", "host", "firmware"};
+constexpr int kNumKinds = 5;
+
+// the four DSP firmware images shipped with the hardware testers (DSP1 container, see src/dsp1_reader/main.cpp)
+struct Firmware {
+    struct Seg {
+        u8 type;
+        u32 target;
+        std::vector<u16> words;
+    };
+    std::string name;
+    std::vector<Seg> segs;
+};
+std::vector<Firmware> g_firmware;
+
+void load_firmware(const std::string& repo) {
+    static const char* names[] = {"dsptester", "dspapbptester", "dspmemorytester", "dspvictester"};
+    for (const char* n : names) {
+        std::ifstream f(repo + "/hwtest/" + n + "/data/cdc.bin", std::ios::binary);
+        std::vector<u8> raw((std::istreambuf_iterator<char>(f)), std::istreambuf_iterator<char>());
+        if (raw.size() < 0x300)
+            continue;
+        Firmware fw;
+        fw.name = n;
+        unsigned nseg = raw[0x10E];
+        for (unsigned i = 0; i < nseg && i < 10; ++i) {
+            const u8* e = raw.data() + 0x120 + i * 0x30;
+            auto rd32 = [](const u8* q) { return (u32)(q[0] | (q[1] << 8) | (q[2] << 16) | ((u32)q[3] << 24)); };
+            u32 off = rd32(e), addr = rd32(e + 4), size = rd32(e + 8);
+            Firmware::Seg sg;
+            sg.type = e[15];
+            sg.target = addr;
+            if ((u64)off + size > raw.size())
+                continue;
+            for (u32 b = 0; b + 1 < size; b += 2)
+                sg.words.push_back((u16)(raw[off + b] | (raw[off + b + 1] << 8)));
+            fw.segs.push_back(sg);
+        }
+        g_firmware.push_back(fw);
+    }
+}
 
 // returns the kind index; everything random comes from g
 int run_case(Rig& r, const Gen& gen, Rng& g, u64 c, Ctx& ctx, std::string& desc, RunResult& rr) {
-    int kind = (int)(c % 4);
+    int kind = (int)(c % kNumKinds);
+    if (kind == 4 && g_firmware.empty())
+        kind = 0;
     auto& t = r.t;
     rr = Classify([&] {
         t.Reset();
@@ -309,6 +351,33 @@ int run_case(Rig& r, const Gen& gen, Rng& g, u64 c, Ctx& ctx, std::string& desc,
             desc = fmt("dma chan=%04x src=%04x%04x dst=%04x%04x size=%x/%x/%x spaces=%04x", chan, srch, srcl, dsth, dstl, s0, s1, s2, spaces);
             t.MMIOWrite(0x1DE, 0x40C0);
             (void)t.MMIORead(0x200);
+        } else if (kind == 4) {
+            // ---- one of the shipped tester firmwares, driven by random host commands in its command area
+            const Firmware& fw = g_firmware[g.below(g_firmware.size())];
+            for (auto& sg : fw.segs)
+                for (size_t i = 0; i < sg.words.size(); ++i) {
+                    if (sg.type == 2)
+                        t.DataWrite((u16)(sg.target + i), sg.words[i], true);
+                    else
+                        t.ProgramWrite((sg.target + (u32)i) & 0x3FFFF, sg.words[i]);
+                }
+            desc = "firmware " + fw.name;
+            unsigned nops = (unsigned)g.range(5, 60);
+            for (unsigned i = 0; i < nops; ++i) {
+                unsigned s = (unsigned)g.below(10);
+                if (s < 4)
+                    t.Run((unsigned)g.range(1, 3000));
+                else if (s < 8) { // command words: [0] signal, [1] type, [2] address, [3..] arguments
+                    u16 a = (u16)g.below(16);
+                    u16 v = a == 2 ? (g.chance(1, 2) ? (u16)(0x8000 + g.pick(kDocOffsets)) : (u16)g.bits(16)) : a < 2 ? (u16)g.below(3) : interesting(g);
+                    t.DataWrite(a, v, true);
+                } else if (s == 8)
+                    t.SendData((u8)g.below(3), (u16)g.bits(16));
+                else {
+                    t.SetSemaphore((u16)(1u << g.below(16)));
+                    (void)t.RecvData((u8)g.below(3));
+                }
+            }
         } else {
             // ---- in-contract host calls with extreme arguments
             desc = "host";
@@ -412,6 +481,7 @@ int main(int argc, char** argv) {
     ctx.parse(argc, argv, "C18");
     Teakra::Verif::mem_observer = &bounds_observer;
     Gen gen;
+    load_firmware(ctx.opts.count("repo") ? ctx.opts["repo"] : "/repo");
     std::string tmpdir = ctx.opts.count("verif") ? ctx.opts["verif"] + "/.build" : "/tmp";
     std::string errfile = fmt("%s/c18_err_%d_%d.txt", tmpdir.c_str(), (int)getpid(), ctx.shard);
     const int hang_seconds = 25;
@@ -536,9 +606,9 @@ int main(int argc, char** argv) {
             hang_confirmed_once = true;
         ctx.count("cases");
         ctx.count(hang ? "hangs" : "aborted_cases");
-        ctx.violation(key + ":" + kKinds[cur % 4],
+        ctx.violation(key + ":" + kKinds[cur % kNumKinds],
                       fmt("%s in case %" PRIu64 " (%s workload)", hang ? "no progress for 25 s (bounded case does not end)" : "sanitizer/signal abort",
-                          cur, kKinds[cur % 4]),
+                          cur, kKinds[cur % kNumKinds]),
                       cur, JObj().str("report", log.substr(0, 3500)).done());
         // continue after the failing case: it is skipped when the batch state is rebuilt
         ctx.opts["skip"] += fmt("%s%" PRIu64, ctx.opts["skip"].empty() ? "" : ",", cur);
